@@ -1565,6 +1565,13 @@ func (dsc *dataStoreCommand) lmove(srcKeyName, destKeyName string, srcLeft, dest
 		return
 	}
 
+	if srcKeyName == destKeyName && srcList.count == 1 {
+		// rotating a one-element list leaves it as it is (popping would delete the key
+		// and the push would go to the detached list object)
+		output.data = respBulkString(srcList.head.element)
+		return
+	}
+
 	destList, err := dsc.ensureListUnlocked(destKeyName)
 	if err != nil {
 		output.data = *err
